@@ -58,6 +58,48 @@ type intCtx struct {
 	vars   map[*Term]bool
 	defs   bytes.Buffer
 	ndef   int
+	rels   []varRel
+}
+
+// varRel: lo <= hi (or lo < hi when strict) between two variables, signed.
+type varRel struct {
+	lo, hi *Term
+	strict bool
+}
+
+// propagateRelations carries constant bounds across variable-variable
+// inequalities (a1 <= a0 and a0 <= 2^40 bound a1 too).
+func (c *intCtx) propagateRelations() {
+	for round := 0; round < 6; round++ {
+		changed := false
+		for _, r := range c.rels {
+			bl, okl := c.bounds[r.lo]
+			bh, okh := c.bounds[r.hi]
+			if !okl {
+				bl = signedRange(r.lo.W)
+			}
+			if !okh {
+				bh = signedRange(r.hi.W)
+			}
+			hi := new(big.Int).Set(bh.hi)
+			lo := new(big.Int).Set(bl.lo)
+			if r.strict {
+				hi.Sub(hi, bigOne)
+				lo.Add(lo, bigOne)
+			}
+			if hi.Cmp(bl.hi) < 0 {
+				c.tighten(r.lo, nil, hi)
+				changed = true
+			}
+			if lo.Cmp(bh.lo) > 0 {
+				c.tighten(r.hi, lo, nil)
+				changed = true
+			}
+		}
+		if !changed {
+			return
+		}
+	}
 }
 
 func sval(t *Term) *big.Int { return big.NewInt(sx(t.Val, t.W)) }
@@ -83,6 +125,10 @@ func (c *intCtx) collectBounds(t *Term) {
 				v = new(big.Int).Add(v, bigOne)
 			}
 			c.tighten(t.B, v, nil)
+		} else if !unsigned && c.boundable(t.A) && c.boundable(t.B) {
+			// x <= y / x < y between two variables: remembered, propagated
+			// once the constant bounds are known (propagateRelations)
+			c.rels = append(c.rels, varRel{t.A, t.B, strict})
 		} else if t.B.IsConst() && c.boundable(t.A) {
 			v := sval(t.B)
 			if unsigned {
@@ -352,6 +398,7 @@ func (s *Solver) intMode(tt *TermTable, extra *Term, timeout time.Duration) (res
 	for _, a := range s.asserted {
 		c.collectBounds(a)
 	}
+	c.propagateRelations()
 	var asserts []string
 	for _, a := range all {
 		e := c.trBool(a)
